@@ -243,6 +243,15 @@ def run(ctx: core.Ctx):
             got = np.atleast_1d(np.asarray(getattr(fl, cls)(key[2]).defuzzify(agg, 0.0, 1.0), dtype=float))
             ctx.count()
             each = [float(np.asarray(getattr(fl, cls)(key[2]).defuzzify(build_set(fl, c), 0.0, 1.0))) for c in cs]
+            # the result belongs to the caller: overwriting it must not change what the next call returns
+            dz_ = getattr(fl, cls)(key[2])
+            r1_ = dz_.defuzzify(agg, 0.0, 1.0)
+            if isinstance(r1_, np.ndarray) and r1_.flags.writeable and r1_.size:
+                r1_[...] = -7.0
+                r2_ = np.atleast_1d(np.asarray(dz_.defuzzify(agg, 0.0, 1.0), dtype=float))
+                if r2_.shape != got.shape or not all(feq(a, b, 1e-12) for a, b in zip(r2_, got)):
+                    ctx.violation(f"batch/{cls}/result-shared-between-calls", {"terms": [k[0] for k in key[0]], "aggr": key[1], "res": key[2], "batch": len(cs)}, got.tolist(), r2_.tolist(),
+                                  note="after the caller overwrote the array returned by one defuzzification, the next one returns other values")
             if got.shape != (len(cs),) or not all(feq(a, b, 1e-12) for a, b in zip(got, each)):
                 ctx.violation(f"batch/{cls}/{'resolution-1' if key[2] == 1 else 'resolution>1'}", {"terms": [k[0] for k in key[0]], "aggr": key[1], "res": key[2], "batch": len(cs)}, each, got.tolist(),
                               note="a batch of sets does not give the per-set results")
